@@ -118,6 +118,15 @@ struct DeflateSession {
                 avoid_f2 = avoiding(plan, "F2");
                 avoid_f4 = avoiding(plan, "F4");
                 data = make_data(plan.at("data"));
+                {
+                        const Json &djz = plan.at("dict");
+                        if (djz.geti("zhead") && (uint64_t) djz.geti("mode") % 3 && data.size() >= 8) { // see the dictionary set-up below
+                                size_t zo = (uint64_t) djz.geti("zhead") % (data.size() - 7);
+                                for (size_t q = 0; q < 4; q++)
+                                        data[zo + q] = 0;
+                                data[zo + 4] = 0x51;
+                        }
+                }
                 // contiguous mode with a lead-in: the stream starts `lead` bytes into the caller's (periodic) array, so the memory just
                 // before the first input byte is readable and equals what follows - a match reaching before the start of the stream
                 // then yields an undecodable stream instead of a fault
@@ -215,6 +224,19 @@ struct DeflateSession {
                                         sh = eff;
                                 size_t at = dj.geti("shpos") ? dn - eff : dn - sh;
                                 memcpy(dict.data() + at, data.data() + off, sh);
+                        }
+                        if (dj.geti("zhead") && dn >= 5 && data.size() >= 8) {
+                                // the part of the dictionary the window keeps begins with a byte pattern (four zero bytes, or the data's own
+                                // first bytes) that occurs nowhere else in it but does occur in the data: the very first dictionary position
+                                // is then the only match candidate - the one an off-by-one in the dictionary hashing would move outside
+                                size_t eff = dn > IGZIP_HIST_SIZE ? IGZIP_HIST_SIZE : dn, at0 = dn - eff;
+                                for (size_t q = at0 + 4; q < dn; q++)
+                                        if (dict[q] == 0)
+                                                dict[q] = 0x51;
+                                for (size_t q = 0; q < 4; q++)
+                                        dict[at0 + q] = 0;
+                                dict[at0 + 4] = 0x51; // the data carries 00 00 00 00 51 (planted when the data was made, before any histogram)
+                                COUNT("cfg.dict_head_unique_pattern");
                         }
                         Slot *s_dict = g_arena.alloc(dn, place, "dict", 0, 1);
                         if (!s_dict)
@@ -844,7 +866,7 @@ static Json gen_deflate(Rng &r0, const std::string &focus, int tier)
         Json dj = Json::obj();
         int dmode = (focus == "C17" ? r.chance(1, 2) : r.chance(1, 8)) ? 1 + (int) r.below(2) : 0;
         static const uint32_t dls[] = { 1, 2, 3, 8, 258, 4096, 32767, 32768, 32769, 40000, 65536, 70000 };
-        dj.set("mode", dmode).set("n", r.chance(1, 2) ? r.pick(dls) : (uint32_t) r.logsize(70000)).set("s", r.u64() >> 20).set("share", r.chance(2, 3) ? (int) (1 + r.logsize(40000)) : 0).set("shoff", r.chance(1, 2) ? 0 : r.u64() >> 40).set("shpos", (int) r.below(2)).set("hb_late", (int) r.chance(1, 3)).set("twin", (int) (focus == "C17" ? r.chance(1, 2) : r.chance(1, 8)));
+        dj.set("mode", dmode).set("n", r.chance(1, 2) ? r.pick(dls) : (uint32_t) r.logsize(70000)).set("s", r.u64() >> 20).set("share", r.chance(2, 3) ? (int) (1 + r.logsize(40000)) : 0).set("shoff", r.chance(1, 2) ? 0 : r.u64() >> 40).set("shpos", (int) r.below(2)).set("hb_late", (int) r.chance(1, 3)).set("twin", (int) (focus == "C17" ? r.chance(1, 2) : r.chance(1, 8))).set("zhead", r.chance(1, 4) ? (int64_t) (1 + r.below(100000)) : 0);
         p.set("dict", dj);
         Json mem = Json::obj();
         bool recycle = (focus == "C07" || focus == "C05") && rmem.chance(1, 8);
